@@ -665,6 +665,19 @@ package meta
 //@   callee metabase.updateCounter
 //@   pureeffect
 //@   defines err == nil && a1 == gcCounter && a2 == -1 ==> garbageCounterTakenDown()
+// ... exactly one: the diff a revival applies for the tombstone it deletes is the one that
+// deletion returned (whatever garbage mark the tombstone itself carried), untouched; the generic
+// step below takes the revived object's one off.
+//@ ghost pred tombstoneDiffGC() int
+//@ callrule c02_revive_tombstone_diff in (*DB).ReviveObject$1
+//@   property C02
+//@   callee (*metabase.DB).delete
+//@   pureeffect
+//@   defines tombstoneDiffGC() == res0.GC
+//@ callrule c02_revive_applies_the_tombstone_diff_untouched in (*DB).ReviveObject$1
+//@   property C02
+//@   callee metabase.applyDiff
+//@   requires [garbage_counter_taken_down_once_by_the_generic_step] a1.GC == tombstoneDiffGC()
 //@ func (*DB).ReviveObject$1
 //@   property C02
 //@   valid ErrObjectWasNotRemoved != nil && ErrReviveFromContainerGarbage != nil
